@@ -1056,7 +1056,7 @@ def overload_contains(obj, element):
             if isinstance(arraytype, ak._connect._numba.layout.RecordArrayType):
                 if arraytype.is_tuple:
                     for fi, ft in enumerate(arraytype.contenttypes):
-                        add_statement(indent, name + "[" + repr(fi) + "]", ft, False)
+                        add_statement(indent, name + "[" + repr(str(fi)) + "]", ft, False)
                 else:
                     for fn, ft in zip(arraytype.recordlookup, arraytype.contenttypes):
                         add_statement(indent, name + "[" + repr(fn) + "]", ft, False)
